@@ -572,4 +572,153 @@ def loadWorkspace (files : List (Bytes × Except Err Package)) : Except Err (Lis
   | .error e => .error e
   | .ok arrivals => loadGraph arrivals
 
+/-! ## Starlark builtins (starlark_loader.go: `targetBuiltin`, `aliasBuiltin`, list / dict conversion)
+
+  First-party code. The Starlark *interpreter* (parsing, evaluation, `UnpackArgs`' generic machinery) is
+  third-party; what is modelled is what the builtins do with the argument values they are called with:
+  which keywords exist, which type each must have, element-wise conversion of lists and dicts, the
+  `output_checks` dict form, and the DTO that results. Calls are keyword-only here. -/
+
+/-- a Starlark value as far as the builtins distinguish them -/
+inductive SVal where
+  | none
+  | bool (b : Bool)
+  | int (i : Int)
+  | float
+  | str (s : Bytes)
+  | list (xs : List SVal)
+  | dict (kvs : List (SVal × SVal))
+deriving Repr
+
+/-- keywords of `target(...)`; `none` in a call stands for any other keyword -/
+inductive TKey where
+  | name | command | deps | inputs | excludes | outputs | binOutput | checks | tags | fingerprint
+  | platforms | env | timeout
+deriving DecidableEq, Repr
+
+inductive SErr where
+  | missing          -- a required argument is absent
+  | unexpected       -- unknown or repeated keyword
+  | wrongType        -- `UnpackArgs`: got X, want string / list / dict
+  | elemType         -- a list element / dict key / dict value that is not a string
+  | badCheck         -- output_checks entry: not a dict, `command` missing or not a string
+deriving DecidableEq, Repr
+
+def asStr : SVal → Except SErr Bytes
+  | .str s => .ok s
+  | _ => .error .wrongType
+
+/-- `starlarkListToStringSlice` after `UnpackArgs` accepted a `*starlark.List` -/
+def strElems : List SVal → Except SErr (List Bytes)
+  | [] => .ok []
+  | .str s :: r => (strElems r).map (s :: ·)
+  | _ :: _ => .error .elemType
+
+def asStrList : SVal → Except SErr (List Bytes)
+  | .list xs => strElems xs
+  | _ => .error .wrongType
+
+/-- `starlarkDictToStringMap` -/
+def strPairs : List (SVal × SVal) → Except SErr KV
+  | [] => .ok []
+  | (.str k, .str v) :: r => (strPairs r).map ((k, v) :: ·)
+  | _ :: _ => .error .elemType
+
+def asStrMap : SVal → Except SErr KV
+  | .dict kvs => strPairs kvs
+  | _ => .error .wrongType
+
+def sCommand : Bytes := [99, 111, 109, 109, 97, 110, 100]                                          -- "command"
+def sExpected : Bytes := [101, 120, 112, 101, 99, 116, 101, 100, 95, 111, 117, 116, 112, 117, 116]  -- "expected_output"
+
+/-- `dict.Get(String(k))` -/
+def dictGet (k : Bytes) : List (SVal × SVal) → Option SVal
+  | [] => none
+  | (.str k', v) :: r => if k' = k then some v else dictGet k r
+  | _ :: r => dictGet k r
+
+/-- one entry of `starlarkListToOutputChecks` (dict form; a non-string `expected_output` is ignored) -/
+def asCheck : SVal → Except SErr (Bytes × Bytes)
+  | .dict kvs =>
+    match dictGet sCommand kvs with
+    | some (.str c) =>
+      match dictGet sExpected kvs with
+      | some (.str e) => .ok (c, e)
+      | _ => .ok (c, [])
+    | _ => .error .badCheck
+  | _ => .error .badCheck
+
+def checkElems : List SVal → Except SErr KV
+  | [] => .ok []
+  | x :: r =>
+    match asCheck x with
+    | .error e => .error e
+    | .ok c => (checkElems r).map (c :: ·)
+
+def asChecks : SVal → Except SErr KV
+  | .list xs => checkElems xs
+  | _ => .error .wrongType
+
+abbrev Kwargs := List (Option TKey × SVal)
+
+def kwGet (k : TKey) : Kwargs → Option SVal
+  | [] => none
+  | (some k', v) :: r => if k' = k then some v else kwGet k r
+  | (none, _) :: r => kwGet k r
+
+/-- no unknown keyword, no keyword twice -/
+def kwOk : Kwargs → Bool
+  | [] => true
+  | (none, _) :: _ => false
+  | (some k, _) :: r => (kwGet k r).isNone && kwOk r
+
+def optArg {α} (f : SVal → Except SErr α) (dflt : α) : Option SVal → Except SErr α
+  | none => .ok dflt
+  | some v => f v
+
+/-- `targetBuiltin` -/
+def starTarget (kw : Kwargs) : Except SErr TargetDTO := do
+  if !kwOk kw then throw .unexpected
+  let name ← match kwGet .name kw with
+    | none => throw .missing
+    | some v => asStr v
+  let command ← optArg asStr [] (kwGet .command kw)
+  let deps ← optArg asStrList [] (kwGet .deps kw)
+  let inputs ← optArg asStrList [] (kwGet .inputs kw)
+  let excludes ← optArg asStrList [] (kwGet .excludes kw)
+  let outputs ← optArg asStrList [] (kwGet .outputs kw)
+  let binOutput ← optArg asStr [] (kwGet .binOutput kw)
+  let checks ← optArg asChecks [] (kwGet .checks kw)
+  let tags ← optArg asStrList [] (kwGet .tags kw)
+  let fingerprint ← optArg asStrMap [] (kwGet .fingerprint kw)
+  let platforms ← optArg (fun v => (asStrList v).map some) none (kwGet .platforms kw)
+  let env ← optArg asStrMap [] (kwGet .env kw)
+  let timeout ← optArg asStr [] (kwGet .timeout kw)
+  pure { name, command, deps, inputs, excludes, outputs, binOutput, checks, tags, fingerprint, platforms, env, timeout }
+
+/-- the canonical `target(...)` call that describes a DTO: every field written out (`platforms` only when
+    the DTO has one — Starlark cannot say "nil") -/
+def kwargsOf (t : TargetDTO) : Kwargs :=
+  [(some .name, .str t.name), (some .command, .str t.command),
+   (some .deps, .list (t.deps.map .str)), (some .inputs, .list (t.inputs.map .str)),
+   (some .excludes, .list (t.excludes.map .str)), (some .outputs, .list (t.outputs.map .str)),
+   (some .binOutput, .str t.binOutput),
+   (some .checks, .list (t.checks.map (fun c => .dict [(.str sCommand, .str c.1), (.str sExpected, .str c.2)]))),
+   (some .tags, .list (t.tags.map .str)),
+   (some .fingerprint, .dict (t.fingerprint.map (fun p => (.str p.1, .str p.2)))),
+   (some .env, .dict (t.env.map (fun p => (.str p.1, .str p.2)))),
+   (some .timeout, .str t.timeout)] ++
+  (match t.platforms with
+   | none => []
+   | some l => [(some .platforms, .list (l.map .str))])
+
+/-- `aliasBuiltin` (keywords: `none` = unknown, `some true` = name, `some false` = actual) -/
+def starAlias (kw : List (Option Bool × SVal)) : Except SErr AliasDTO := do
+  let get (b : Bool) := (kw.find? (fun p => p.1 = some b)).map (·.2)
+  if kw.any (fun p => p.1.isNone) || (kw.filter (fun p => p.1 = some true)).length > 1 ||
+     (kw.filter (fun p => p.1 = some false)).length > 1 then throw .unexpected
+  match get true, get false with
+  | some n, some a => do pure ⟨← asStr n, ← asStr a⟩
+  | _, _ => throw .missing
+
 end Grog.Loader
